@@ -598,7 +598,7 @@ func c16Handlers(c *Ctx, r *Report) {
 		okRange, okSort, okCount := false, false, false
 		for i, s := range fd.Body.List {
 			if rg, ok := s.(*ast.RangeStmt); ok && strings.HasSuffix(exprStr(rg.X), "."+h.mapField) && len(rg.Body.List) == 1 {
-				if as, ok := rg.Body.List[0].(*ast.AssignStmt); ok && len(as.Rhs) == 1 && strings.HasSuffix(exprStr(as.Lhs[0]), "."+h.dst) {
+				if as, ok := rg.Body.List[0].(*ast.AssignStmt); ok && len(as.Rhs) == 1 && (strings.HasSuffix(exprStr(as.Lhs[0]), "."+h.dst) || assignedLater(fd.Body.List[i+1:], exprStr(as.Lhs[0]), "."+h.dst)) {
 					if call, ok := as.Rhs[0].(*ast.CallExpr); ok && len(call.Args) == 2 && exprStr(call.Args[0]) == exprStr(as.Lhs[0]) {
 						okRange = true
 						// Count: count (the range value)
@@ -804,4 +804,16 @@ func c16LessLexicographic(c *Ctx, typ string, fields []string) (bool, string) {
 		}
 	}
 	return true, fmt.Sprintf("lexicographic on (%s) for all %d orderings of the compared fields", strings.Join(fields, ", "), n)
+}
+
+// assignedLater: among stmts there is `<x>.<dst> = <local>` (the list was built in a local first).
+func assignedLater(stmts []ast.Stmt, local, dstSuffix string) bool {
+	for _, s := range stmts {
+		if as, ok := s.(*ast.AssignStmt); ok && len(as.Lhs) == 1 && len(as.Rhs) == 1 {
+			if strings.HasSuffix(exprStr(as.Lhs[0]), dstSuffix) && exprStr(as.Rhs[0]) == local {
+				return true
+			}
+		}
+	}
+	return false
 }
